@@ -3,6 +3,8 @@ package uu
 //verif:harness C16 quick p=0..3 spare=0..1
 //verif:harness C16 quick p=2..2 spare=36..36
 //verif:harness C16 quick p=2..2 spare=64..64
+//verif:harness C16 quick p=9..9 spare=0..1
+//verif:harness C16 quick p=13..13 spare=45..45
 //verif:harness C16 thorough p=4..8 spare=0..1
 //verif:harness C16 thorough p=8..8 spare=44..46
 func H_C16_uu(p int, spare int) {
